@@ -254,6 +254,7 @@ class extract_visitor(NodeVisitor):
             self.flow.scope.flow = self.flow
 
     visit_Try = visit_TryExcept
+    visit_TryStar = visit_TryExcept  # except* binds its names the same way
 
     def visit_FunctionDef(self, node):
         # type: (ast.FunctionDef) -> None
